@@ -321,11 +321,11 @@ def replay (cfg : Cfg) (c : Case) : KRes := Id.run do
 /-- Every non-empty combination of the repair flags (the implementation may carry any subset of
     the repairs; DESIGN 1.3). -/
 def fixedVariants (cfg : Cfg) : List Cfg :=
-  (List.range 128).tail.map fun m =>
+  (List.range 256).tail.map fun m =>
     { cfg with fixReapOrphan := m % 2 == 1, fixReack := (m / 2) % 2 == 1,
                fixWinUpdate := (m / 4) % 2 == 1, fixHsReset := (m / 8) % 2 == 1,
                fixRstAfterClose := (m / 16) % 2 == 1, fixOrphanTimeout := (m / 32) % 2 == 1,
-               fixQuietClose := (m / 64) % 2 == 1 }
+               fixQuietClose := (m / 64) % 2 == 1, fixSynWindow := (m / 128) % 2 == 1 }
 
 /-! ### O: oracles on the implementation's observations -/
 
@@ -413,6 +413,24 @@ def patStaleZeroWindow (h : Spec.History) : Bool :=
 def patLostWindowUpdate (h : Spec.History) : Bool :=
   (droppedPkts h).any fun p => isPureAck p && p.seg.window > 0
 
+/-- F-C06-7: some endpoint had more bytes in flight than its peer's whole receive buffer (only
+    possible on the first flight, while `snd_wnd` is still the 65535 of the SYN / SYN-ACK). -/
+def patOvershoot (cfg : Cfg) (h : Spec.History) : Bool :=
+  (h.foldl (fun (acc : Spec.WinSt × Bool) e =>
+    let st := acc.1
+    let over := match e.1 with
+      | .egress => e.2.any fun o => match o with
+          | .pkt _ p =>
+            p.udp.isNone && !p.seg.payload.isEmpty &&
+              (match (st.flows.find? fun f => f.key ⟨p.src, p.seg.srcPort⟩ ⟨p.dst, p.seg.dstPort⟩) with
+               | some f => match f.una with
+                 | some u => decide (p.seg.seq + p.seg.payload.length > u + cfg.recvCap)
+                 | none => false
+               | none => false)
+          | _ => false
+      | _ => false
+    (Spec.winStep st e, acc.2 || over)) ({}, false)).2
+
 /-- F-C06-6: a dropped pure ACK acknowledges a FIN of the reverse flow (the last ACK of a close). -/
 def patLostAckOfFin (h : Spec.History) : Bool :=
   let em := emitted h
@@ -453,6 +471,7 @@ def oracle (prop : String) (c : Case) (h : Spec.History) (closedWin hsRetx : Boo
         match (if c.fixture then Spec.c06LivenessE2E c.cfg c.e2eDrops c.e2eHold h else Spec.c06Liveness c.cfg h) with
         | some m =>
           let pat := if closedWin && (patStaleZeroWindow h || patLostWindowUpdate h) then "F-C06-4"
+                     else if closedWin && patOvershoot c.cfg h then "F-C06-7"
                      else if closedWin then "F-C06-2"
                      else if patLostHandshakeAck h then "F-C06-3"
                      else if patLostAckOfFin h then "F-C06-6"
@@ -545,7 +564,8 @@ def covTags (c : Case) (h : Spec.History) : List String := Id.run do
 def withFlags (cfg src : Cfg) : Cfg :=
   { cfg with fixReapOrphan := src.fixReapOrphan, fixReack := src.fixReack, fixWinUpdate := src.fixWinUpdate,
              fixHsReset := src.fixHsReset, fixRstAfterClose := src.fixRstAfterClose,
-             fixOrphanTimeout := src.fixOrphanTimeout, fixQuietClose := src.fixQuietClose }
+             fixOrphanTimeout := src.fixOrphanTimeout, fixQuietClose := src.fixQuietClose,
+             fixSynWindow := src.fixSynWindow }
 
 def processCase (prop : String) (c : Case) (memo : IO.Ref (Option Cfg)) : IO (Bool × Bool) := do
   let k0 : KRes := if c.nok then { ok := true } else replay c.cfg c
